@@ -788,8 +788,8 @@ def main(tier, seed, replay=None):
             for fn in sorted(os.listdir(cdir)):
                 if fn.endswith(".json"):
                     sets.append(set_from_json(json.load(open(os.path.join(cdir, fn)))["set"]))
-        nmain = 150 if tier == "quick" else 4000
-        nknown = 16 if tier == "quick" else 300
+        nmain = 400 if tier == "quick" else 4000
+        nknown = 30 if tier == "quick" else 300
         for i in range(nmain):
             regime = MAIN_REGIMES[i % len(MAIN_REGIMES)]
             cs = gen_set(rng, "m%d" % i, regime)
@@ -803,7 +803,7 @@ def main(tier, seed, replay=None):
     # a few sets are also imported with snapshot points every few packets (overlay, see snap_overlay)
     snap_sets = []
     if not replay:
-        for i in range(24 if tier == "quick" else 600):
+        for i in range(60 if tier == "quick" else 600):
             cs = gen_set(rng, "s%d" % i, MAIN_REGIMES[i % len(MAIN_REGIMES)])
             cut_files(rng, cs, "contig")
             nf = len(cs.files)
